@@ -4,7 +4,8 @@
    membership or user-set fields of fits. Equality with the rebuild under the
    target source is compared with the implementation (mirror oracle). *)
 From Coq Require Import List ZArith Bool.
-From EosV Require Import lib.AList model.World model.Engine model.Ops proofs.Misc_p proofs.Status_p proofs.Frame_p.
+From EosV Require Import lib.AList model.World model.Engine model.Ops proofs.Misc_p proofs.Status_p proofs.Frame_p
+     proofs.Owner_p proofs.Cinv_p proofs.Runs_p.
 Import ListNotations.
 
 Theorem C14_same_source_noop : forall s x new y,
@@ -20,6 +21,21 @@ Theorem C14_unloaded_runs_nothing : forall w i it w' msgs,
   exists it', get_item w' i = Some it' /\ i_running it' = [].
 Proof. exact unloaded_msgs_clear_running. Qed.
 
+(* a source switch that ends without internal error re-establishes, under
+   whatever source each item is now loaded from, exactly what a build from
+   scratch establishes: running set = decision table for every directly held
+   item, nothing running on unloaded items, ownership consistent; and it moves
+   no item between containers *)
+Theorem C14_switch_reestablishes_invariants : forall s x new,
+  RJ (fst s) -> w_err (fst (fst (source_set_op s x new))) = None ->
+  RJ (fst (fst (source_set_op s x new))).
+Proof. exact source_set_op_RJ. Qed.
+Theorem C14_switch_moves_nothing : forall s x new,
+  J (fst s) -> forall q, members (fst (fst (source_set_op s x new))) q = members (fst s) q.
+Proof. intros s x new Js. exact (proj2 (source_set_op_MK s x new Js)). Qed.
+
 Print Assumptions C14_same_source_noop.
+Print Assumptions C14_switch_reestablishes_invariants.
+Print Assumptions C14_switch_moves_nothing.
 Print Assumptions C14_unload_load_keep_structure.
 Print Assumptions C14_unloaded_runs_nothing.
